@@ -6,7 +6,8 @@ input or output is a pytree).  Reference: hstack / block_diag / vstack of the ba
 order.  Also: as_matrix, transposes (class, container, matrix), block-wise inverse, refusals of mismatching shared
 structures, and - for every ordered pair of block operators that type-check, incl. differently nested containers -
 (X @ Y).reduce() denotes probe(X) probe(Y), and is a single block operator (a sum for row x column) when the two
-containers are identical.
+containers are identical.  History: equinox.tree_at replacing the first / last block by another block of the same spaces gives
+the block matrix of the NEW blocks (application, as_matrix, structures) and leaves the original operator as it was.
 """
 from __future__ import annotations
 
@@ -244,6 +245,34 @@ def check_operator(case, violations):
                     Mi = P.probe(inv, cache=False).M
                     if not P.close(Mi @ ref, np.eye(ref.shape[0]), 1e-4) or not P.close(ref @ Mi, np.eye(ref.shape[0]), 1e-4):
                         violations.append({'kind': 'inverse-wrong', 'case': case, 'detail': f'A.I A = {P.mat_summary(Mi @ ref, 60)}'})
+        # history: a functional update (equinox.tree_at) that swaps one block for another of the same spaces yields an operator
+        # that is the block matrix of ITS blocks (application, dense form, declared structures), and leaves the original alone
+        import equinox as eqx
+
+        for k in sorted({0, len(names) - 1}):
+            alt = next((n for n in BLOCKS if n != names[k] and BLOCKS[n] == BLOCKS[names[k]] and n in E['blocks']), None)
+            if alt is None:
+                continue
+            try:
+                op2 = eqx.tree_at(lambda o, k=k: jax.tree.leaves(o.blocks, is_leaf=is_op)[k], op, E['blocks'][alt])
+            except Exception:  # noqa: BLE001 - equinox cannot address a block without array leaves this way: not the library's business
+                continue
+            mats2 = list(mats)
+            mats2[k] = P.probe(E['blocks'][alt]).M
+            ref2 = block_matrix(case['cls'], mats2)
+            tol2 = 1e-4 if alt in ('R', 'Rt') else tol
+            M2 = P.probe(op2, cache=False).M
+            if M2.shape != ref2.shape or not P.close(M2, ref2, tol2):
+                violations.append({'kind': 'block-replaced-application', 'case': dict(case, replaced=[k, alt]), 'detail': f'after tree_at the operator acts as {P.mat_summary(M2, 60)} instead of {P.mat_summary(ref2, 60)}'})
+            A2 = np.asarray(P.lib('as_matrix after tree_at', op2.as_matrix))
+            A2 = A2.astype(np.complex128 if np.iscomplexobj(A2) else np.float64)
+            if A2.shape != ref2.shape or not P.close(A2, ref2, tol2):
+                violations.append({'kind': 'block-replaced-as_matrix', 'case': dict(case, replaced=[k, alt]), 'detail': f'after tree_at as_matrix() = {P.mat_summary(A2, 60)} instead of {P.mat_summary(ref2, 60)}'})
+            if P.ssize(op2.in_structure()) != ref2.shape[1] or P.ssize(op2.out_structure()) != ref2.shape[0]:
+                violations.append({'kind': 'block-replaced-structure', 'case': dict(case, replaced=[k, alt]), 'detail': f'{op2.in_structure()} -> {op2.out_structure()} for a {ref2.shape} block matrix'})
+            M0 = P.probe(op, cache=False).M
+            if not P.close(M0, ref, tol):
+                violations.append({'kind': 'original-changed-by-update', 'case': dict(case, replaced=[k, alt]), 'detail': f'the original acts as {P.mat_summary(M0, 60)} after the update'})
     except P.LibError as e:
         violations.append({'kind': 'library-raises', 'case': case, 'detail': f'{e}\n{e.tb}'})
 
